@@ -26,7 +26,9 @@ pub trait Dom {
 
 // ---- generators of leaf values ----------------------------------------------------------------
 
-const STR_ATOMS: [&str; 9] = ["", "a", "b", "ab", "\u{e9}", "\u{20ac}", "\u{10348}", "\u{7f}", "\u{80}"];
+// multi-byte characters come in groups that share leading bytes and first differ in a middle
+// continuation byte
+const STR_ATOMS: [&str; 14] = ["", "a", "b", "ab", "\u{e9}", "\u{e8}", "\u{20ac}", "\u{202c}", "\u{20ad}", "\u{10348}", "\u{10308}", "\u{20348}", "\u{7f}", "\u{80}"];
 const BYTE_ATOMS: [u8; 5] = [0x00, 0x01, 0x7f, 0x80, 0xff];
 
 fn gen_str(r: &mut Rec) -> String {
@@ -142,7 +144,7 @@ macro_rules! dom {
 
 fn small_strs() -> Vec<String> {
     // all strings of length <= 3 over the atom set
-    let atoms = ["a", "b", "\u{e9}", "\u{20ac}", "\u{10348}"];
+    let atoms = ["a", "b", "\u{e9}", "\u{20ac}", "\u{202c}", "\u{10348}", "\u{10308}", "\u{20348}"];
     let mut out = vec![String::new()];
     let mut layer = vec![String::new()];
     for _ in 0..3 {
@@ -408,7 +410,7 @@ impl Check for C15 {
         "C15"
     }
     fn rule(&self) -> String {
-        "each tape record generates one triple (a,b,c) of values of one of 33 built-in key types (integers of every width/sign, bool, char, (), &str, String, &[u8], &[u8;3], [u16;3], [&str;2], [&[u8];3], Option<u32>, Option<&str>, Option<Option<&[u8]>>, Option<[&str;2]>, tuples of arity 1-4 mixing fixed and variable elements) with generators biased to extremes, equal prefixes, empty values and 1-4-byte UTF-8 boundaries; for every pair: K::compare on the encodings == Ord of the Rust values, antisymmetry, from_bytes(as_bytes(v)) == v and re-encoding identity, and for a<b the separator s: len(s) <= len(enc a), from_bytes(s) does not panic and re-encodes to s, compare(a,s) != Greater, compare(s,b) == Less, decoded s in [a,b); transitivity on each triple. Exhaustive stage: all ordered pairs of the small domains (all u8/i8, all strings of length <= 3 over {a,b,e-acute,euro,U+10348}, all byte strings of length <= 4 over {00,01,7f,80,ff}, and 2-element arrays/tuples/Options over subsets of those). Non-trivial: a<b pair whose encodings share a non-empty prefix in a variable-width type or differ in length; distinct by (type, both encodings).".into()
+        "each tape record generates one triple (a,b,c) of values of one of 33 built-in key types (integers of every width/sign, bool, char, (), &str, String, &[u8], &[u8;3], [u16;3], [&str;2], [&[u8];3], Option<u32>, Option<&str>, Option<Option<&[u8]>>, Option<[&str;2]>, tuples of arity 1-4 mixing fixed and variable elements) with generators biased to extremes, equal prefixes, empty values and 1-4-byte UTF-8 boundaries; for every pair: K::compare on the encodings == Ord of the Rust values, antisymmetry, from_bytes(as_bytes(v)) == v and re-encoding identity, and for a<b the separator s: len(s) <= len(enc a), from_bytes(s) does not panic and re-encodes to s, compare(a,s) != Greater, compare(s,b) == Less, decoded s in [a,b); transitivity on each triple. Exhaustive stage: all ordered pairs of the small domains (all u8/i8, all strings of length <= 3 over {a,b,e-acute,U+20AC,U+202C,U+10348,U+10308,U+20348} (characters that share leading bytes and first differ in a middle continuation byte), all byte strings of length <= 4 over {00,01,7f,80,ff}, and 2-element arrays/tuples/Options over subsets of those). Non-trivial: a<b pair whose encodings share a non-empty prefix in a variable-width type or differ in length; distinct by (type, both encodings).".into()
     }
     fn assumptions(&self) -> Vec<String> {
         vec!["uuid/chrono key types are feature-gated and not covered".into(), "the reference order is Rust's Ord on the mirrored owned value (numeric, scalar value for char, lexicographic for str/slices/arrays/tuples, None < Some)".into()]
